@@ -19,7 +19,15 @@ theorem abort_keeps_state (o : Options) (s0 s : DState) (e : Exn) (hh : o.showHe
 theorem section_atomic (o : Options) (format : Format) (s s' : DState) (e : Exn)
     (h : (processSection o format).run s = (.error e, s')) (he : e = .parserError ∨ e = .invalidArgument) :
     ∃ ops, s'.trace = s.trace ++ ops ∧ ∀ op ∈ ops, op.isTmp = true ∨ ∃ p m, op = FsOp.chmod p m := by
-  exact (processSection_atomic o format).err s e s' h he
+  obtain ⟨ops, h1, h2⟩ := (processSection_atomic o format).err s e s' h he
+  exact ⟨ops, h1, fun op hop => Or.inl (h2 op hop)⟩
+
+/-- **stronger, since the `chmod` of a read-only target is deferred to `makeWritable`**: a section abandoned because of its text
+    has performed operations on anonymous temporaries only — not even the mode of the target has changed -/
+theorem section_atomic_strict (o : Options) (format : Format) (s s' : DState) (e : Exn)
+    (h : (processSection o format).run s = (.error e, s')) (he : e = .parserError ∨ e = .invalidArgument) :
+    ∃ ops, s'.trace = s.trace ++ ops ∧ ∀ op ∈ ops, op.isTmp = true :=
+  (processSection_atomic o format).err s e s' h he
 
 /-- a file is written in one go: `creat` is always directly followed by the `write` of the whole content (or by nothing, for empty
     content); no other statement — in particular nothing that can throw because of the patch text — lies between them -/
@@ -43,8 +51,8 @@ theorem writeFile_trace (p content : Bytes) (s s' : DState) (h : (writeFile p co
   · cases h
 
 /-- the sources of git renames are removed only after every deferred file has been completely written: in the operations of
-    `DeferredWriter::finalize` no `unlink`/`rmdir` precedes a `creat`/`write`/`chmod`/`mkdir` -/
-theorem finalize_removals_last (s s' : DState) (r : Except Exn Unit) (h : finalizeDeferred.run s = (r, s')) :
+    `DeferredWriter::finalize` no `unlink`/`rmdir` precedes a `creat`/`write`/`chmod`/`mkdir` or the `rename` of a backup -/
+theorem finalize_removals_last (o : Options) (s s' : DState) (r : Except Exn Unit) (h : (finalizeDeferred o).run s = (r, s')) :
     ∃ ws rs, s'.trace = s.trace ++ ws ++ rs ∧
       (∀ op ∈ ws, ∀ p, op ≠ FsOp.unlink p ∧ op ≠ FsOp.rmdir p) ∧
       (∀ op ∈ rs, ∃ p, op = FsOp.unlink p ∨ op = FsOp.rmdir p) := by
@@ -53,15 +61,88 @@ theorem finalize_removals_last (s s' : DState) (r : Except Exn Unit) (h : finali
   refine TrExt.seq2 (A := fun op => ∀ p, op ≠ FsOp.unlink p ∧ op ≠ FsOp.rmdir p)
     (B := fun op => ∃ p, op = FsOp.unlink p ∨ op = FsOp.rmdir p) ?_ (fun _ => ?_) h
   · spec_walk (good_ext _)
-    · exact ensureParentDirs_trExt (by intro p q; simp) _
-    · exact writeFile_trExt (by intro p q; simp) (by intro p b q; simp) _ _
-    · exact permissionCallback_trExt (by intro p m q; simp) _ _ _
+    all_goals first
+      | exact ensureParentDirs_trExt (by intro p q; simp) _
+      | exact makeWritable_trExt (by intro p m q; simp) _ _
+      | exact makeBackupFor_trExt (by intro a b q; simp) (by intro a q; simp) _ _
+      | exact writeFile_trExt (by intro p q; simp) (by intro p b q; simp) _ _
+      | exact permissionCallback_trExt (by intro p m q; simp) _ _ _
   · spec_walk (good_ext _)
     exact removeFileAndEmptyParents_trExt (fun p => ⟨p, Or.inl rfl⟩) (fun p => ⟨p, Or.inr rfl⟩) _
 
+/-- the record `write_patched_result_to_file` hands to `DeferredWriter` -/
+def deferredRecord (p : Patch) (out : Bytes) (perm : PermResult) (sb : Bool) (content : Bytes) : DeferredWrite :=
+  { dest := out, content := content, newMode := p.newMode, perm := perm, backup := sb }
+
+/-- `write_patched_result_to_file` on the deferred path -/
+theorem writePatchedResult_deferred_eq (o : Options) (p : Patch) (out : Bytes) (perm : PermResult) (sb : Bool) (content : Bytes)
+    (hg : p.format = .git) (hd : p.operation ≠ .delete) (hl : isSymlinkMode p.newMode = false) :
+    writePatchedResult o p out perm sb content =
+      ((if (p.operation == .add) = true then ensureParentDirs out else pure ()) >>= fun _ =>
+        modify fun s => { s with dWrites := s.dWrites ++ [deferredRecord p out perm sb content] }) := by
+  have h1 : (p.format == .git && p.operation != .delete) = true := by
+    rw [hg]; simp [hd]
+  unfold writePatchedResult
+  simp only [h1, hl, ↓reduceIte, Bool.false_eq_true]
+  split <;> simp [deferredRecord]
+
+/-- **a deferred write is only recorded** (git patch, not a deletion, not a symbolic link; nothing to create): `writePatchedResult`
+    performs no file system operation at all — in particular no backup `rename` of the output file, which `DeferredWriter::finalize`
+    now makes right before it writes the file — and appends the record, with the backup request, to the deferred list -/
+theorem deferred_write_touches_nothing (o : Options) (p : Patch) (out : Bytes) (perm : PermResult) (sb : Bool) (content : Bytes)
+    (s : DState) (hg : p.format = .git) (hd : p.operation ≠ .delete) (ha : p.operation ≠ .add)
+    (hl : isSymlinkMode p.newMode = false) :
+    (writePatchedResult o p out perm sb content).run s =
+      (.ok (), { s with dWrites := s.dWrites ++ [deferredRecord p out perm sb content] }) := by
+  rw [writePatchedResult_deferred_eq o p out perm sb content hg hd hl]
+  have : (p.operation == .add) = false := by simp [ha]
+  simp only [this, Bool.false_eq_true, ↓reduceIte]
+  rfl
+
+/-- creating the parent directories does not touch the deferred list -/
+theorem ensureParentDirs_dWrites (p : Bytes) {s s' : DState} {r : Except Exn Unit}
+    (h : (ensureParentDirs p).run s = (r, s')) : s'.dWrites = s.dWrites :=
+  ensureParentDirs_keeps (·.dWrites) (fun _ _ _ _ => rfl) p h
+
+/-- the same for every deferred write, additions included: the only operations are the `mkdir`s of the parent directories — no
+    `rename`, no `creat`: neither the backup nor the output file is touched before `finalize` —, and on success the record is the
+    last entry of the deferred list -/
+theorem deferred_write_no_backup_yet (o : Options) (p : Patch) (out : Bytes) (perm : PermResult) (sb : Bool) (content : Bytes)
+    (s s' : DState) (r : Except Exn Unit) (hg : p.format = .git) (hd : p.operation ≠ .delete)
+    (hl : isSymlinkMode p.newMode = false)
+    (h : (writePatchedResult o p out perm sb content).run s = (r, s')) :
+    (∃ ops, s'.trace = s.trace ++ ops ∧ ∀ op ∈ ops, ∃ d, op = FsOp.mkdir d) ∧
+    (r = .ok () → s'.dWrites = s.dWrites ++ [deferredRecord p out perm sb content]) ∧
+    (p.operation ≠ .add → s'.fs = s.fs ∧ s'.trace = s.trace) := by
+  refine ⟨?_, ?_, ?_⟩
+  · rw [writePatchedResult_deferred_eq o p out perm sb content hg hd hl] at h
+    have : TrExt (fun op => ∃ d, op = FsOp.mkdir d)
+        ((if (p.operation == .add) = true then ensureParentDirs out else pure ()) >>= fun _ =>
+          (modify fun s => { s with dWrites := s.dWrites ++ [deferredRecord p out perm sb content] } : DM Unit)) := by
+      have := ensureParentDirs_trExt (A := fun op => ∃ d, op = FsOp.mkdir d) (fun d => ⟨d, rfl⟩)
+      spec_walk (good_ext _)
+    exact this.run h
+  · rintro rfl
+    rw [writePatchedResult_deferred_eq o p out perm sb content hg hd hl, run_bind] at h
+    split at h
+    · next a s1 h1 =>
+      cases h
+      have : s1.dWrites = s.dWrites := by
+        split at h1
+        · exact ensureParentDirs_dWrites _ h1
+        · cases h1; rfl
+      show s1.dWrites ++ _ = _
+      rw [this]
+    · cases h
+  · intro ha
+    rw [deferred_write_touches_nothing o p out perm sb content s hg hd ha hl] at h
+    cases h; exact ⟨rfl, rfl⟩
 end PatchModel.C09
 
 #print axioms PatchModel.C09.abort_keeps_state
 #print axioms PatchModel.C09.section_atomic
+#print axioms PatchModel.C09.section_atomic_strict
 #print axioms PatchModel.C09.writeFile_trace
 #print axioms PatchModel.C09.finalize_removals_last
+#print axioms PatchModel.C09.deferred_write_touches_nothing
+#print axioms PatchModel.C09.deferred_write_no_backup_yet
